@@ -59,6 +59,14 @@ func PinSeed(seed uint32) *KeySpace {
 	return &KeySpace{Seed: seed}
 }
 
+// CurrentHashSeed returns the pinned hash seed (0 if none).
+func CurrentHashSeed() uint32 {
+	if p := pogreb.VerifPinnedSeed; p != nil {
+		return *p
+	}
+	return 0
+}
+
 // InClass returns count fresh keys whose hash has the given low bits.
 func (ks *KeySpace) InClass(bits uint, class uint32, count int) []string {
 	mask := uint32(1)<<bits - 1
